@@ -34,7 +34,8 @@ EXTRA_VARS = {"dsim.yaml_pkg.reforms.add_bonus": ("r_bonus", "2018-01"), "dsim.y
 def generate_yaml(seed, tier, st):
     wr = st["world"]
     world = gen_world(wr, discipline="acyclic", n_vars=wr.randint(3, 7), max_depth=2,
-                      units=[("month", 65), ("year", 30), ("eternity", 5)])
+                      units=[("month", 65), ("year", 30), ("eternity", 5)],
+                      ratio=False)  # (margins around a NaN or an infinite engine value decide nothing)
     ir = st["inputs"]
     tests = []
     n = ir.randint(6, 12 if tier == "quick" else 30)
